@@ -19,10 +19,10 @@ FALLBACK_DEFS = ['-DPACKAGE_NAME="radsecproxy"', '-DPACKAGE_TARNAME="radsecproxy
                  '-DHAVE_LIBNETTLE=1', '-DHAVE_LIBRESOLV=1']
 
 # repo files compiled as they are
-PLAIN = ["dns", "dtls", "fticks", "fticks_hashmac", "gconfig", "hash", "hostport", "list",
+PLAIN = ["dns", "dtls", "fticks", "fticks_hashmac", "gconfig", "hash", "list",
          "radmsg", "rewrite", "tcp", "tls", "tlv11", "udp", "util"]
 # repo files compiled through a harness TU that #includes them textually
-WRAPPED = {"radsecproxy": "h_rsp", "tlscommon": "h_tls", "debug": "h_debug"}
+WRAPPED = {"radsecproxy": "h_rsp", "tlscommon": "h_tls", "debug": "h_debug", "hostport": "h_hostport"}
 EXTRA = ["h_main", "h_misc"]
 
 
